@@ -492,3 +492,138 @@ fn async_late(ops: &[Op], i: usize) -> bool {
   }
   false
 }
+
+// ================================================================================================
+// one late subscriber whose own next callback pushes into the subject (during the hand-over of the
+// history / latest value, or later): it still receives every item exactly once, in push order
+
+pub struct C10Reenter;
+
+impl Family for C10Reenter {
+  fn name(&self) -> &'static str {
+    "c10-subscriber-pushes-from-its-callback"
+  }
+  fn threaded(&self) -> bool {
+    false
+  }
+  fn gen(&self, rng: &mut Rng, _tier: Tier) -> Json {
+    Json::obj(vec![
+      ("subject", Json::str(*rng.pick(&["replay", "replay", "behavior", "subject"]))),
+      ("history", Json::Int(rng.below(4) as i64)),
+      ("later", Json::Int(rng.below(3) as i64)),
+      // the callback of the k-th item the subscriber receives pushes this many further items
+      ("push_at", Json::Int(rng.below(4) as i64)),
+      ("push_n", Json::Int(rng.range(1, 2) as i64)),
+      ("terminal", Json::str(*rng.pick(&["complete", "error", "none"]))),
+    ])
+  }
+  fn exec(&self, w: &Json, cfg: RunCfg) -> RunOut {
+    let kind = w.s("subject");
+    let (history, later, push_at, push_n) = (w.i("history"), w.i("later"), w.i("push_at"), w.i("push_n"));
+    if !["replay", "behavior", "subject"].contains(&kind.as_str()) || history < 0 || history > 5 || later < 0 || later > 5 || push_at < 0 || push_at > 8 || push_n < 1 || push_n > 3 {
+      return RunOut::invalid();
+    }
+    let terminal = w.s("terminal");
+    if !["complete", "error", "none"].contains(&terminal.as_str()) {
+      return RunOut::invalid();
+    }
+    let mut rec = Recorder::new();
+    // every next call in the order in which it was made
+    let pushed: Arc<Mutex<Vec<i64>>> = Arc::new(Mutex::new(Vec::new()));
+    let handed_first: Arc<Mutex<Option<usize>>> = Arc::new(Mutex::new(None));
+    let (pushed2, kind2, term2, hf2) = (pushed.clone(), kind.clone(), terminal.clone(), handed_first.clone());
+    let rec_out = rec.clone();
+    let res = rt::run(cfg, move || {
+      let sbj = match Subj::make(&kind2) {
+        Some(s) => s,
+        None => return,
+      };
+      let push = {
+        let (sbj, pushed) = (sbj.clone(), pushed2.clone());
+        move |v: i64| {
+          pushed.lock().unwrap().push(v);
+          sbj.next(v);
+        }
+      };
+      for i in 0..history {
+        push(10 + i);
+      }
+      // how many pushes had been made when the subscriber arrived
+      *hf2.lock().unwrap() = Some(pushed2.lock().unwrap().len());
+      let seen = Arc::new(Mutex::new(0i64));
+      {
+        let push = push.clone();
+        rec.hook = Some(Arc::new(move |ev: &Ev| {
+          if let Ev::Next(_) = ev {
+            let k = {
+              let mut n = seen.lock().unwrap();
+              *n += 1;
+              *n - 1
+            };
+            if k == push_at {
+              for j in 0..push_n {
+                push(70 + j);
+              }
+            }
+          }
+        }));
+      }
+      let sub = rec.subscribe(&sbj.observable());
+      for i in 0..later {
+        push(40 + i);
+      }
+      match term2.as_str() {
+        "complete" => sbj.complete(),
+        "error" => sbj.error(3),
+        _ => {}
+      }
+      rec.hook = None;
+      drop(sub);
+    });
+    let blame = match kind.as_str() {
+      "replay" => "replay_subject",
+      "behavior" => "behavior_subject",
+      _ => "subject",
+    };
+    let mut v = Vec::new();
+    let pushed = pushed.lock().unwrap().clone();
+    let arrived = handed_first.lock().unwrap().unwrap_or(0);
+    let got: Vec<Ev> = rec_out.events().into_iter().map(|e| e.ev).collect();
+    let history_s = vec![format!("{} subject, pushes in call order {:?} (the subscriber arrived after the first {}), subscriber saw {}", kind, pushed, arrived, rec_out.shown())];
+    if let Some(o) = outcome_violation(&res, blame) {
+      // a callback that emits into the subject it is called from must not block (C07's statement);
+      // reported here too because nothing can be judged otherwise
+      v.push(o);
+    } else {
+      // what the subscriber is owed, in push order
+      let mut want: Vec<Ev> = match kind.as_str() {
+        "replay" => pushed.iter().map(|x| Ev::Next(Val::Int(*x))).collect(),
+        "behavior" => {
+          // the latest value at arrival (the initial value 1 if nothing was pushed), then everything later
+          let first = if arrived == 0 { INITIAL } else { pushed[arrived - 1] };
+          std::iter::once(first).chain(pushed[arrived..].iter().copied()).map(|x| Ev::Next(Val::Int(x))).collect()
+        }
+        _ => pushed[arrived..].iter().map(|x| Ev::Next(Val::Int(*x))).collect(),
+      };
+      match terminal.as_str() {
+        "complete" => want.push(Ev::Complete),
+        "error" => want.push(Ev::Error(err_id(&mk_err(3)))),
+        _ => {}
+      }
+      if got != want {
+        let show = |x: &[Ev]| x.iter().map(|e| e.show()).collect::<Vec<_>>().join(" ");
+        let mut sg: Vec<String> = got.iter().map(|e| e.show()).collect();
+        let mut sw: Vec<String> = want.iter().map(|e| e.show()).collect();
+        sg.sort();
+        sw.sort();
+        let class = if sg == sw { "reordered" } else if got.len() < want.len() { "lost" } else { "duplicate" };
+        v.push(Violation::new(class, blame, format!("{}: a subscriber whose callback of item #{} pushes {} item(s) into the subject must get [{}] (push order, each once), got [{}]", kind, push_at, push_n, show(&want), show(&got))));
+      }
+    }
+    let mut fpv = 0u64;
+    for h in &history_s {
+      fpv = fpv.wrapping_mul(0x100000001B3) ^ fnv(h);
+    }
+    RunOut { res, violations: v, fingerprint: fpv, invalid: false, reach: vec![], history: history_s }
+  }
+}
